@@ -145,12 +145,12 @@ def execVerdict (t : Tables) (ctx : Ctx) (limits : Bool) (script : Bytes) (witBo
   | none => "bad:unparseable-script"
   | some ops =>
     let env := mkEnv t ctx limits lockTime seq
-    match run env ops (State.init witBottomFirst.reverse) with
+    match runPeak env ops (State.init witBottomFirst.reverse) witBottomFirst.length with
     | .error e => "bad:" ++ showErr e
-    | .ok s =>
+    | .ok (s, peak) =>
       if !s.conds.isEmpty then "bad:unbalanced"
-      else match s.stack with
-        | [a] => if castToBool a then s!"ok ops={s.ops} peak={s.peak}" else "bad:false"
+      else match s.core.stack with
+        | [a] => if castToBool a then s!"ok ops={s.core.ops} peak={peak}" else "bad:false"
         | [] => "bad:empty-stack"
         | _ => "bad:unclean-stack"
 
